@@ -344,6 +344,7 @@ const (
 	ModeTwice     = 3 // execute twice (duplicated request), deliver the first reply
 	ModeFail      = 4 // do not execute; the caller sees an RPC error
 	ModeExecOnly  = 5 // execute now; the reply stays in the network until Reply/DropReply
+	ModeCrash     = 6 // (Driver only) PullTract executed at a tractserver that crashes at the data write, then restarts
 )
 
 // Start applies a delivery decision to a parked call and settles.
